@@ -6,7 +6,7 @@
 P="$1"; TIER="$2"; shift 2
 TAG=$(echo "$P" | tr '/:' '__')
 WT=/tmp/mut/run$TAG.$$
-git -C /repo worktree add -q --detach "$WT" HEAD || exit 2
+git -C /repo worktree add -q --detach "$WT" ${BASE:-HEAD} || exit 2
 if [[ "$P" == -R:* ]]; then
   git -C "$WT" revert --no-commit "${P#-R:}" >/dev/null 2>&1 || { echo "cannot revert $P"; git -C /repo worktree remove --force "$WT"; exit 2; }
 else
